@@ -6,6 +6,7 @@ import SalsaVerif.Drive.Intern
 import SalsaVerif.Drive.SyncDG
 import SalsaVerif.Drive.Core
 import SalsaVerif.Drive.Core3
+import SalsaVerif.Drive.CoreAcc
 import SalsaVerif.Drive.Cancel
 import SalsaVerif.Drive.Alloc
 
@@ -20,6 +21,7 @@ def main (args : List String) : IO UInt32 := do
   | ["intern"] => SalsaVerif.Drive.Intern.mainIntern; return 0
   | ["core"] => SalsaVerif.Drive.Core.main; return 0
   | ["core3"] => SalsaVerif.Drive.Core3.main; return 0
+  | ["coreacc"] => SalsaVerif.Drive.CoreAcc.main; return 0
   | ["cancel"] => SalsaVerif.Drive.Cancel.main; return 0
   | ["alloc"] => SalsaVerif.Drive.Alloc.main; return 0
   | _ =>
